@@ -272,6 +272,7 @@ func runC16(c *fw.Case) {
 		return rel
 	}
 	usedIDs := map[string]bool{}
+	strays := 0 // files with chunk-like names outside their canonical place: prune may give up on them (error), it must not delete them
 	nobj := c.Range(0, 40, "c16.objects")
 	for i := 0; i < nobj; i++ {
 		data := mkData()
@@ -319,10 +320,26 @@ func runC16(c *fw.Case) {
 			write(rel, encode(data, unc)[:r.IntN(len(data)+1)%(len(encode(data, unc))+1)])
 			files = append(files, &c16File{rel: rel, kind: "tmp"})
 			c.Fault("writer-killed-leaving-temp-file")
-		case 8: // junk
-			rel := []string{"README", filepath.Join(id[:4], "notes.txt"), filepath.Join("zz", id[:10]), id[:64] + ".bak"}[r.IntN(4)]
+		case 8: // junk, incl. files with chunk-like names that are not chunks of this store
+			ext := ""
+			if !unc {
+				ext = ".cacnk"
+			}
+			cands := []string{"README", filepath.Join(id[:4], "notes.txt"), filepath.Join("zz", id[:10]), id[:64] + ".bak",
+				filepath.Join("0000", id+ext),                      // wrong directory
+				filepath.Join(strings.ToUpper(id[:4]), strings.ToUpper(id)+ext), // upper-case hex
+				id + ext,                                            // directly in the base directory
+				filepath.Join(id[:4], "sub", id+ext),               // nested deeper
+			}
+			k := r.IntN(len(cands))
+			rel := cands[k]
 			write(rel, []byte("not a chunk"))
-			files = append(files, &c16File{rel: rel, kind: "junk"})
+			kind := "junk"
+			if k >= 4 {
+				kind = "misplaced-chunk-like-name"
+				strays++
+			}
+			files = append(files, &c16File{rel: rel, kind: kind})
 		case 9: // second valid chunk (more references)
 			write(relOf(id, unc), encode(data, unc))
 			files = append(files, &c16File{rel: relOf(id, unc), kind: "chunk", id: id, valid: true, ownFmt: true})
@@ -387,7 +404,7 @@ func runC16(c *fw.Case) {
 		}
 		for _, f := range files {
 			gone := !exists(f.rel)
-			mustKeep := f.kind == "junk" || f.kind == "chunk-other-format" || (f.ownFmt && f.referenced)
+			mustKeep := f.kind == "junk" || f.kind == "misplaced-chunk-like-name" || f.kind == "chunk-other-format" || (f.ownFmt && f.referenced)
 			if mustKeep && gone {
 				c.Violate("prune-deleted-too-much", "LocalStore.Prune/"+f.kind, "prune removed %s (%s, referenced=%v) which it must keep (prune error=%v)", f.rel, f.kind, f.referenced, perr)
 				return
@@ -397,7 +414,7 @@ func runC16(c *fw.Case) {
 				return
 			}
 		}
-		if perr != nil {
+		if perr != nil && strays == 0 {
 			c.Violate("prune-failed", "LocalStore.Prune", "prune failed on a readable store: %v", perr)
 			return
 		}
@@ -426,7 +443,9 @@ func runC16(c *fw.Case) {
 		}
 		got := map[string]bool{}
 		for _, line := range strings.Split(out.String(), "\n") {
-			if m := hex64.FindString(line); m != "" {
+			// a report of an invalid chunk says that the id does not match its hash; other lines (e.g. "missing from
+			// store" for a stray file with a chunk-like name) are diagnostics, not such reports
+			if m := hex64.FindString(line); m != "" && strings.Contains(line, "does not match") {
 				got[m] = true
 			}
 		}
